@@ -3,7 +3,8 @@
 (* optionally once more) against a server with B receive buffers.  The view    *)
 (* hides the history variable `saw' (the invariant over it is checked when the *)
 (* entry is appended: an entry never changes afterwards).                      *)
-(* With Swapped = TRUE the run must FAIL (the driver requires it).             *)
+(* With Swapped = TRUE, and with KeepLen = TRUE (a recycled buffer keeps the    *)
+(* length of the datagram before), the run must FAIL (the driver requires it). *)
 EXTENDS Exchange
 
 CONSTANTS MaxResend
@@ -13,7 +14,7 @@ VARIABLES x, resent
 Init == x = XInit /\ resent = 0
 
 Next ==
-  \/ \E c \in Clients : CanSend(x, c) /\ x' = Send(x, c) /\ UNCHANGED resent
+  \/ \E c \in Clients : CanSend(x, c) /\ x' = Send(x, c, c) /\ UNCHANGED resent        \* client c's request has c octets
   \/ \E c \in Clients : CanResend(x, c) /\ resent < MaxResend /\ x' = Resend(x, c) /\ resent' = resent + 1
   \/ \E b \in Buffers, c \in Clients : CanRecv(x, b, c) /\ x' = Recv(x, b, c) /\ UNCHANGED resent
   \/ \E t \in 1..Len(x.tasks) :
